@@ -529,6 +529,12 @@ Pat/Teddy.vos Pat/Teddy.vok Pat/Teddy.required_vos: Pat/Teddy.v
 Pat/TeddyProofs.vo Pat/TeddyProofs.glob Pat/TeddyProofs.v.beautified Pat/TeddyProofs.required_vo: Pat/TeddyProofs.v Pat/Teddy.vo
 Pat/TeddyProofs.vio: Pat/TeddyProofs.v Pat/Teddy.vio
 Pat/TeddyProofs.vos Pat/TeddyProofs.vok Pat/TeddyProofs.required_vos: Pat/TeddyProofs.v Pat/Teddy.vos
+Scanner/MatchesIter.vo Scanner/MatchesIter.glob Scanner/MatchesIter.v.beautified Scanner/MatchesIter.required_vo: Scanner/MatchesIter.v 
+Scanner/MatchesIter.vio: Scanner/MatchesIter.v 
+Scanner/MatchesIter.vos Scanner/MatchesIter.vok Scanner/MatchesIter.required_vos: Scanner/MatchesIter.v 
+Scanner/MatchesIterProofs.vo Scanner/MatchesIterProofs.glob Scanner/MatchesIterProofs.v.beautified Scanner/MatchesIterProofs.required_vo: Scanner/MatchesIterProofs.v Scanner/MatchesIter.vo Gen/TrackingGen.vo
+Scanner/MatchesIterProofs.vio: Scanner/MatchesIterProofs.v Scanner/MatchesIter.vio Gen/TrackingGen.vio
+Scanner/MatchesIterProofs.vos Scanner/MatchesIterProofs.vok Scanner/MatchesIterProofs.required_vos: Scanner/MatchesIterProofs.v Scanner/MatchesIter.vos Gen/TrackingGen.vos
 Scanner/PrivIter.vo Scanner/PrivIter.glob Scanner/PrivIter.v.beautified Scanner/PrivIter.required_vo: Scanner/PrivIter.v 
 Scanner/PrivIter.vio: Scanner/PrivIter.v 
 Scanner/PrivIter.vos Scanner/PrivIter.vok Scanner/PrivIter.required_vos: Scanner/PrivIter.v 
